@@ -507,4 +507,304 @@ theorem lexOk_sound : ∀ t : Ast, t.lexOk = true → t.LexWF := by
     simp only [Ast.lexOk, Bool.and_eq_true, List.all_eq_true] at h
     exact ⟨fun x hx => ⟨nameOk_of_check (h.1 x hx).1, nameOk_of_check (h.1 x hx).2⟩, ih h.2⟩
 
+
+/-! ### single-character tokens followed by anything -/
+
+/-- all spellings that start with `c` are the one-character spelling `c` of row `row` -/
+def singleFirst (c : Char) (row : String × String) (tbl : List (String × String × String)) : Bool :=
+  tbl.all fun r => match r.1.toList with
+    | x :: xs => x != c || (xs.isEmpty && (r.2.1, r.2.2) == row)
+    | [] => false
+
+theorem longestSpelling_single_some (c : Char) (cs : List Char) (row : String × String) :
+    ∀ (tbl : List (String × String × String)), singleFirst c row tbl = true →
+    longestSpelling (c :: cs) tbl (some (row, 1)) = some (row, 1) := by
+  intro tbl
+  induction tbl with
+  | nil => intro _; rfl
+  | cons r tbl ih =>
+    intro h
+    obtain ⟨sp, ty, val⟩ := r
+    simp only [singleFirst, List.all_cons, Bool.and_eq_true] at h
+    obtain ⟨h1, h2⟩ := h
+    simp only [longestSpelling]
+    cases hs : sp.toList with
+    | nil => simp [hs] at h1
+    | cons x xs =>
+      simp only [hs, Bool.or_eq_true, bne_iff_ne, ne_eq, Bool.and_eq_true, List.isEmpty_iff,
+        beq_iff_eq] at h1
+      by_cases hx : x = c
+      · subst hx
+        rcases h1 with h1 | ⟨hxs, _⟩
+        · exact absurd rfl h1
+        · subst hxs
+          simp only [isPrefixChars, beq_self_eq_true, Bool.and_self, if_true, List.length_cons,
+            List.length_nil, Nat.lt_irrefl, if_false]
+          exact ih h2
+      · have : isPrefixChars (x :: xs) (c :: cs) = false := by
+          simp [isPrefixChars, hx]
+        rw [this]
+        exact ih h2
+
+theorem longestSpelling_single (c : Char) (cs : List Char) (row : String × String) :
+    ∀ (tbl : List (String × String × String)), singleFirst c row tbl = true →
+    (tbl.any fun r => r.1.toList == [c]) = true →
+    longestSpelling (c :: cs) tbl none = some (row, 1) := by
+  intro tbl
+  induction tbl with
+  | nil => intro _ h; simp at h
+  | cons r tbl ih =>
+    intro h hany
+    obtain ⟨sp, ty, val⟩ := r
+    have h' := h
+    simp only [singleFirst, List.all_cons, Bool.and_eq_true] at h
+    obtain ⟨h1, h2⟩ := h
+    simp only [longestSpelling]
+    cases hs : sp.toList with
+    | nil => simp [hs] at h1
+    | cons x xs =>
+      simp only [hs, Bool.or_eq_true, bne_iff_ne, ne_eq, Bool.and_eq_true, List.isEmpty_iff,
+        beq_iff_eq] at h1
+      by_cases hx : x = c
+      · subst hx
+        rcases h1 with h1 | ⟨hxs, hrow⟩
+        · exact absurd rfl h1
+        · subst hxs
+          simp only [isPrefixChars, beq_self_eq_true, Bool.and_self, if_true, List.length_cons,
+            List.length_nil]
+          rw [hrow]
+          exact longestSpelling_single_some x cs row tbl h2
+      · have : isPrefixChars (x :: xs) (c :: cs) = false := by
+          simp [isPrefixChars, hx]
+        rw [this]
+        simp only [List.any_cons, hs, Bool.or_eq_true, beq_iff_eq, List.cons.injEq] at hany
+        rcases hany with ⟨hxc, _⟩ | hany
+        · exact absurd hxc hx
+        · exact ih h2 hany
+
+/-- the single-character tokens of `to_expr` texts -/
+def singles : List (Char × Tok) := [('(', .lparen), (')', .rparen), (',', .comma), ('~', .not)]
+
+theorem singles_ok : (singles.all fun ct =>
+    !Gen.lexIgnore.toList.contains ct.1 && !isNameStart ct.1 && !(ct.1 == '\\') && !(ct.1 == '\n') &&
+    singleFirst ct.1 (rowOf ct.2) Gen.spellings && (Gen.spellings.any fun r => r.1.toList == [ct.1]) &&
+    tokOfRow (rowOf ct.2).1 (rowOf ct.2).2 == some ct.2) = true := by decide
+
+theorem step_single (c : Char) (t : Tok) (hct : (c, t) ∈ singles) (f : Nat) (cs : List Char)
+    (hstar : c = '(' → cs.head? ≠ some '*') :
+    tokenizeF (f+1) (c :: cs) = t :: tokenizeF f cs := by
+  have h := List.all_eq_true.mp singles_ok (c, t) hct
+  simp only [Bool.and_eq_true, Bool.not_eq_true', beq_iff_eq] at h
+  obtain ⟨⟨⟨⟨⟨⟨h1, h2⟩, h3⟩, h4⟩, h5⟩, h6⟩, h7⟩ := h
+  have hp : preOk (c :: cs) = true := by
+    simp only [preOk, h1, h2, h3, h4, Bool.not_false, Bool.true_and, Bool.false_and, Bool.and_true,
+      Bool.not_eq_true', Bool.and_eq_false_iff]
+    by_cases hc : c = '('
+    · right
+      have := hstar hc
+      simpa using this
+    · left
+      simpa using hc
+  have := tokenizeF_spelling f c cs _ _ 1 t hp (longestSpelling_single c cs _ _ h5 h6) h7
+  simpa using this
+
+/-! ### words followed by a delimiter or the end of the text -/
+
+/-- nothing, or a character that cannot continue a NAME -/
+def delimOk : List Char → Prop
+  | [] => True
+  | d :: _ => isNameChar d = false
+
+theorem step_word' (w : List Char) (hw : isWord w) (f : Nat) (rest : List Char) (hr : delimOk rest) :
+    tokenizeF (f+1) (w ++ rest) = nameTok (String.ofList w) :: tokenizeF f rest := by
+  obtain ⟨c, cs, rfl, hc, hcs⟩ := hw
+  have hall : ∀ x ∈ c :: cs, isNameChar x = true := by
+    intro x hx
+    rcases List.mem_cons.mp hx with rfl | hx
+    · exact nameTail_ok _ (by simp [nameTail, hc])
+    · exact nameTail_ok _ (hcs x hx)
+  have e := tokenizeF_word f c (cs ++ rest) hc
+  rw [List.cons_append, e]
+  have ht : ((c :: cs) ++ rest).takeWhile isNameChar = c :: cs := by
+    rw [List.takeWhile_append_of_pos hall]
+    cases rest with
+    | nil => simp
+    | cons d r => simp [List.takeWhile, delimOk] at hr ⊢; simp [hr]
+  have hd : ((c :: cs) ++ rest).dropWhile isNameChar = rest := by
+    rw [List.dropWhile_append_of_pos hall]
+    cases rest with
+    | nil => simp
+    | cons d r => simp [List.dropWhile, delimOk] at hr ⊢; simp [hr]
+  rw [List.cons_append] at ht hd
+  rw [ht, hd]
+
+
+/-! ### the texts written by `to_expr` -/
+
+/-- syntax trees in the image of `to_expr` -/
+inductive TE : Ast → Prop
+  | tt : TE (.bool true)
+  | ff : TE (.bool false)
+  | var (x : String) : nameOk x → TE (.var x)
+  | ite (v : String) (q p : Ast) : nameOk v → TE q → TE p → TE (.ite (.var v) q p)
+  | neg (e : Ast) : TE e → TE (.not e)
+
+/-- `to_expr` parenthesises exactly the negations -/
+def isNot : Ast → Bool
+  | .not _ => true
+  | _ => false
+
+/-- characters of the text `to_expr` writes for a tree of its image -/
+def teChars : Ast → List Char
+  | .bool true => "TRUE".toList
+  | .bool false => "FALSE".toList
+  | .var x => x.toList
+  | .ite (.var v) q p =>
+    "ite(".toList ++ (v.toList ++ (", ".toList ++ (teChars q ++ (", ".toList ++ (teChars p ++ [')'])))))
+  | .not e => "(~ ".toList ++ (teChars e ++ [')'])
+  | _ => []
+
+theorem nameOk_head {x : String} (h : nameOk x) : ∃ c cs, x.toList = c :: cs ∧ c ∈ nameStarts := by
+  obtain ⟨⟨c, cs, h1, h2, _⟩, _⟩ := h
+  exact ⟨c, cs, h1, h2⟩
+
+theorem tokenizeF_nil (f : Nat) : tokenizeF (f+1) [] = [] := by simp [tokenizeF]
+
+theorem nameStarts_not_star : ∀ c ∈ nameStarts, c ≠ '*' := by decide
+
+theorem TE_lvl {e : Ast} (h : TE e) : decide (e.lvl < notPrec) = false := by
+  cases h <;> (simp only [Ast.lvl]; exact decide_eq_false (by omega))
+
+theorem isNot_not (e : Ast) : isNot (.not e) = true := rfl
+
+/-- lexing the text of a `to_expr` tree, followed by `rest` -/
+theorem tokenizeF_te : ∀ (a : Ast), TE a → ∀ (f : Nat) (rest : List Char) (res : List Tok),
+    (teChars a ++ rest).length < f → delimOk rest →
+    (∀ f', rest.length < f' → tokenizeF f' rest = res) →
+    tokenizeF f (teChars a ++ rest) = printG isNot a ++ res := by
+  intro a ha
+  induction ha with
+  | tt =>
+    intro f rest res hf hr hk
+    obtain ⟨f0, rfl⟩ := fuel_succ hf
+    have hf0 : rest.length < f0 := by
+      have : ("TRUE".toList).length = 4 := by decide
+      simp only [teChars, List.length_append, this] at hf; omega
+    have := step_word' "TRUE".toList (isWord_of_check _ (by decide)) f0 rest hr
+    rw [String.ofList_toList] at this
+    have e : nameTok "TRUE" = .tt := by decide
+    rw [e, hk f0 hf0] at this
+    simpa [teChars, printG, printRaw, paren, isNot] using this
+  | ff =>
+    intro f rest res hf hr hk
+    obtain ⟨f0, rfl⟩ := fuel_succ hf
+    have hf0 : rest.length < f0 := by
+      have : ("FALSE".toList).length = 5 := by decide
+      simp only [teChars, List.length_append, this] at hf; omega
+    have := step_word' "FALSE".toList (isWord_of_check _ (by decide)) f0 rest hr
+    rw [String.ofList_toList] at this
+    have e : nameTok "FALSE" = .ff := by decide
+    rw [e, hk f0 hf0] at this
+    simpa [teChars, printG, printRaw, paren, isNot] using this
+  | var x hx =>
+    intro f rest res hf hr hk
+    obtain ⟨f0, rfl⟩ := fuel_succ hf
+    obtain ⟨c, cs, hxc, _⟩ := nameOk_head hx
+    have hf0 : rest.length < f0 := by
+      simp only [teChars, List.length_append, hxc, List.length_cons] at hf; omega
+    have := step_word' x.toList hx.1 f0 rest hr
+    rw [String.ofList_toList] at this
+    have e : nameTok x = .name x := by simp [nameTok, hx.2]
+    rw [e, hk f0 hf0] at this
+    simpa [teChars, printG, printRaw, paren, isNot] using this
+  | ite v q p hv _ _ ihq ihp =>
+    intro f rest res hf hr hk
+    obtain ⟨c, cs, hvc, hcst⟩ := nameOk_head hv
+    -- the characters
+    have e0 : teChars (.ite (.var v) q p) ++ rest =
+        "ite".toList ++ ('(' :: (v.toList ++ (',' :: ' ' :: (teChars q ++
+          (',' :: ' ' :: (teChars p ++ (')' :: rest))))))) := by
+      have e1 : "ite(".toList = "ite".toList ++ ['('] := by decide
+      have e2 : ", ".toList = [',', ' '] := by decide
+      simp only [teChars, e1, e2, List.append_assoc, List.cons_append, List.nil_append]
+    rw [e0] at hf ⊢
+    have hl3 : ("ite".toList).length = 3 := by decide
+    simp only [List.length_append, List.length_cons, hl3] at hf
+    -- `ite`
+    obtain ⟨f1, rfl⟩ := fuel_succ hf
+    have s1 := step_word' "ite".toList (isWord_of_check _ (by decide)) f1
+      ('(' :: (v.toList ++ (',' :: ' ' :: (teChars q ++ (',' :: ' ' :: (teChars p ++ (')' :: rest)))))))
+      (by simp only [delimOk]; decide)
+    rw [String.ofList_toList] at s1
+    have eite : nameTok "ite" = .ite := by decide
+    rw [eite] at s1
+    rw [s1]
+    -- `(`
+    obtain ⟨f2, rfl⟩ : ∃ f2, f1 = f2 + 1 := ⟨f1 - 1, by omega⟩
+    rw [step_single '(' .lparen (by decide) f2 _ (by
+      intro _; rw [hvc]; simp only [List.cons_append, List.head?_cons, ne_eq, Option.some.injEq]
+      exact nameStarts_not_star c hcst)]
+    -- the variable
+    obtain ⟨f3, rfl⟩ : ∃ f3, f2 = f3 + 1 := ⟨f2 - 1, by omega⟩
+    have s3 := step_word' v.toList hv.1 f3
+      (',' :: ' ' :: (teChars q ++ (',' :: ' ' :: (teChars p ++ (')' :: rest))))) (by simp only [delimOk]; decide)
+    rw [String.ofList_toList] at s3
+    have ev : nameTok v = .name v := by simp [nameTok, hv.2]
+    rw [ev] at s3
+    rw [s3]
+    -- `, `
+    have hvl : 0 < v.toList.length := by rw [hvc]; simp
+    obtain ⟨f4, rfl⟩ : ∃ f4, f3 = f4 + 1 := ⟨f3 - 1, by omega⟩
+    rw [step_single ',' .comma (by decide) f4 _ (by intro h; exact absurd h (by decide))]
+    obtain ⟨f5, rfl⟩ : ∃ f5, f4 = f5 + 1 := ⟨f4 - 1, by omega⟩
+    rw [tokenizeF_space]
+    -- q, then `, `, p, `)`
+    have hq := ihq f5 (',' :: ' ' :: (teChars p ++ (')' :: rest)))
+      (Tok.comma :: (printG isNot p ++ (Tok.rparen :: res)))
+      (by simp only [List.length_append, List.length_cons]; omega)
+      (by simp only [delimOk]; decide)
+      (by
+        intro f' hf'
+        simp only [List.length_cons, List.length_append] at hf'
+        obtain ⟨g1, rfl⟩ : ∃ g1, f' = g1 + 1 := ⟨f' - 1, by omega⟩
+        rw [step_single ',' .comma (by decide) g1 _ (by intro h; exact absurd h (by decide))]
+        obtain ⟨g2, rfl⟩ : ∃ g2, g1 = g2 + 1 := ⟨g1 - 1, by omega⟩
+        rw [tokenizeF_space]
+        have hp := ihp g2 (')' :: rest) (Tok.rparen :: res)
+          (by simp only [List.length_append, List.length_cons]; omega)
+          (by simp only [delimOk]; decide)
+          (by
+            intro f'' hf''
+            simp only [List.length_cons] at hf''
+            obtain ⟨g3, rfl⟩ : ∃ g3, f'' = g3 + 1 := ⟨f'' - 1, by omega⟩
+            rw [step_single ')' .rparen (by decide) g3 _ (by intro h; exact absurd h (by decide))]
+            rw [hk g3 (by omega)])
+        rw [hp])
+    rw [hq]
+    simp [printG, printRaw, paren, isNot]
+  | neg e hte ih =>
+    intro f rest res hf hr hk
+    have e0 : teChars (.not e) ++ rest = '(' :: '~' :: ' ' :: (teChars e ++ (')' :: rest)) := by
+      have e1 : "(~ ".toList = ['(', '~', ' '] := by decide
+      simp only [teChars, e1, List.append_assoc, List.cons_append, List.nil_append]
+    rw [e0] at hf ⊢
+    simp only [List.length_append, List.length_cons] at hf
+    obtain ⟨f1, rfl⟩ := fuel_succ hf
+    rw [step_single '(' .lparen (by decide) f1 _ (by intro _; simp)]
+    obtain ⟨f2, rfl⟩ : ∃ f2, f1 = f2 + 1 := ⟨f1 - 1, by omega⟩
+    rw [step_single '~' .not (by decide) f2 _ (by intro h; exact absurd h (by decide))]
+    obtain ⟨f3, rfl⟩ : ∃ f3, f2 = f3 + 1 := ⟨f2 - 1, by omega⟩
+    rw [tokenizeF_space]
+    have he := ih f3 (')' :: rest) (Tok.rparen :: res)
+      (by simp only [List.length_append, List.length_cons]; omega)
+      (by simp only [delimOk]; decide)
+      (by
+        intro f' hf'
+        simp only [List.length_cons] at hf'
+        obtain ⟨g, rfl⟩ : ∃ g, f' = g + 1 := ⟨f' - 1, by omega⟩
+        rw [step_single ')' .rparen (by decide) g _ (by intro h; exact absurd h (by decide))]
+        rw [hk g (by omega)])
+    rw [he]
+    simp [printG, printRaw, paren, isNot_not, TE_lvl hte]
+
 end DD
